@@ -39,11 +39,15 @@ pub fn can_be_used(lhs: &Type, rhs: &Type) -> bool {
 
 pub fn exec(iter: Variable, function: Variable) -> ExecResult {
     let element = iter.as_type().return_type().unwrap();
+    #[cfg(feature = "verif")]
+    crate::verif::mark_helper(&FILTER);
     let result = FILTER
         .exec_with_args(&[iter, function])?
         .into_function()
         .unwrap();
     let mut result = Arc::unwrap_or_clone(result);
+    #[cfg(feature = "verif")]
+    crate::verif::mark_helper(&result);
     result.return_type = element;
     Ok(result.into())
 }
